@@ -22,10 +22,11 @@ import (
 )
 
 type c18HistStep struct {
-	End     string `json:"end"`      // drop | disc | discslow | srvclose
-	Ticks   int    `json:"ticks"`    // the session stays up for this many intervals
-	PauseIv int    `json:"pause_iv"` // intervals between the end of this session and the next attempt (0: at once)
-	Via     string `json:"via"`      // how the NEXT session is established: resume | connect
+	End     string `json:"end"`                // drop | disc | discslow | srvclose
+	Ticks   int    `json:"ticks"`              // the session stays up for this many intervals
+	PauseIv int    `json:"pause_iv"`           // intervals between the end of this session and the next attempt (0: at once)
+	Via     string `json:"via"`                // how the NEXT session is established: resume | connect
+	BlockIv int    `json:"block_iv,omitempty"` // the application's Disconnected handler: 0 returns at once; n > 0 blocks for n intervals; n < 0 blocks until the harness, having watched the connection for -n intervals, releases it
 }
 
 type c18HistSess struct {
@@ -44,6 +45,9 @@ func (in *c18In) histKey() string {
 	var b strings.Builder
 	for _, s := range in.Hist {
 		fmt.Fprintf(&b, "/%s.%d.%d.%s", s.End, s.Ticks, s.PauseIv, s.Via)
+		if s.BlockIv != 0 {
+			fmt.Fprintf(&b, ".h%d", s.BlockIv)
+		}
 	}
 	return b.String()
 }
@@ -65,6 +69,10 @@ func c18GenHist(add func(*c18In), intn func(int) int, n int) {
 	// server slow to answer; a later session lost and the client resumed at once (what a StreamManager does)
 	mk(1000*(5+intn(4)), c18HistStep{End: "drop"}, c18HistStep{End: "discslow"}, c18HistStep{End: "disc"})
 	mk(1000*(5+intn(4)), c18HistStep{End: "disc", Via: "connect"}, c18HistStep{End: "drop"}, c18HistStep{End: "drop", Ticks: 14}, c18HistStep{End: "discslow"})
+	// the application's Disconnected handler takes its time (a StreamManager's returns when the reconnection
+	// is through): every kind of end, in the first and in a later session
+	mk(1000*(5+intn(4)), c18HistStep{End: "srvclose", BlockIv: 4 + intn(5)}, c18HistStep{End: "drop", BlockIv: -6}, c18HistStep{End: "srvclose", BlockIv: -(4 + intn(4))})
+	mk(1000*(5+intn(4)), c18HistStep{End: "drop", BlockIv: 4 + intn(5)}, c18HistStep{End: "srvclose", BlockIv: 4 + intn(5), Via: "connect"}, c18HistStep{End: "disc", BlockIv: 4 + intn(5)}, c18HistStep{End: "discslow", BlockIv: 4})
 	for i := 0; i < n; i++ {
 		k := 2 + intn(3)
 		steps := make([]c18HistStep, k)
@@ -80,6 +88,12 @@ func c18GenHist(add func(*c18In), intn func(int) int, n int) {
 			steps[j] = c18HistStep{End: e, Ticks: 6 + intn(8), Via: []string{"resume", "resume", "connect"}[intn(3)]}
 			if intn(3) == 0 {
 				steps[j].PauseIv = 2 + intn(5)
+			}
+			switch intn(3) {
+			case 1:
+				steps[j].BlockIv = 3 + intn(6)
+			case 2:
+				steps[j].BlockIv = -(3 + intn(6))
 			}
 		}
 		mk(1000*(4+intn(5)), steps...)
@@ -127,6 +141,9 @@ func runKeepaliveHist(in *c18In, attempt int) (Sx, *c18Obs) {
 	var mu sync.Mutex
 	var reports []stamp
 	discCh := make(chan struct{}, 16)
+	var discAt time.Time      // when the Disconnected handler was last entered
+	var block time.Duration   // how long it blocks (current session)
+	var release chan struct{} // ... or what it waits for
 	client, err := xmpp.NewClient(cfg, xmpp.NewRouter(), func(error) {
 		mu.Lock()
 		reports = append(reports, stamp{time.Now(), false})
@@ -138,11 +155,22 @@ func runKeepaliveHist(in *c18In, attempt int) (Sx, *c18Obs) {
 	client.SetHandler(func(e xmpp.Event) error {
 		if xmpp.VerifEventState(e) == xmpp.StateDisconnected {
 			mu.Lock()
-			reports = append(reports, stamp{time.Now(), true})
+			discAt = time.Now()
+			reports = append(reports, stamp{discAt, true})
+			d, rel := block, release
 			mu.Unlock()
 			select {
 			case discCh <- struct{}{}:
 			default:
+			}
+			// the application's handler is in no hurry: the session is over all the same
+			if rel != nil {
+				select {
+				case <-rel:
+				case <-time.After(5 * time.Second):
+				}
+			} else if d > 0 {
+				time.Sleep(d)
 			}
 		}
 		return nil
@@ -178,6 +206,15 @@ func runKeepaliveHist(in *c18In, attempt int) (Sx, *c18Obs) {
 		ro.Attempts = append(ro.Attempts, 0)
 		est = append(est, time.Now())
 		hs := c18HistSess{End: st.End}
+		mu.Lock()
+		block, release = 0, nil
+		if st.BlockIv > 0 {
+			block = time.Duration(st.BlockIv) * iv
+		} else if st.BlockIv < 0 {
+			release = make(chan struct{})
+		}
+		rel := release
+		mu.Unlock()
 		time.Sleep(time.Duration(st.Ticks) * iv)
 		now := time.Now()
 		upEnd = append(upEnd, now)
@@ -192,12 +229,25 @@ func runKeepaliveHist(in *c18In, attempt int) (Sx, *c18Obs) {
 		for len(discCh) > 0 {
 			<-discCh
 		}
-		waitDisc := func(d time.Duration) {
+		waitDisc := func(d time.Duration) time.Time {
 			select {
 			case <-discCh:
 			case <-time.After(d):
 				hs.NoEnd = true
+				return time.Now()
 			}
+			mu.Lock()
+			at := discAt
+			mu.Unlock()
+			// the handler is running: the connection is watched meanwhile, then the handler let go
+			if rel != nil {
+				time.Sleep(time.Duration(-st.BlockIv) * iv)
+				close(rel)
+			} else if st.BlockIv > 0 {
+				time.Sleep(time.Duration(st.BlockIv) * iv)
+			}
+			time.Sleep(2 * time.Millisecond)
+			return at
 		}
 		discDone := make(chan struct{})
 		disconnect := func() {
@@ -213,14 +263,14 @@ func runKeepaliveHist(in *c18In, attempt int) (Sx, *c18Obs) {
 		switch st.End {
 		case "drop":
 			srv.drop(k)
-			waitDisc(4 * time.Second)
-			// over when the client said so (+ room for a ping already under way)
-			over = append(over, time.Now().Add(40*time.Millisecond))
+			at := waitDisc(4 * time.Second)
+			// over when the client said so: quit is closed BEFORE the loss is reported (+ room for a ping under way)
+			over = append(over, at.Add(iv/2))
 			ro.Ends = append(ro.Ends, 1)
 		case "srvclose":
 			srv.push(k, "</stream:stream>")
-			waitDisc(4 * time.Second)
-			over = append(over, time.Now().Add(40*time.Millisecond))
+			at := waitDisc(4 * time.Second)
+			over = append(over, at.Add(iv/2))
 			ro.Ends = append(ro.Ends, 2)
 			disconnect() // the transport is still open: closed before the next attempt
 			waitReturned()
@@ -433,12 +483,9 @@ func histOracle(in *c18In, obs Sx) (string, string) {
 		if hs.AfterTag > 1 {
 			return how(k) + fmt.Sprintf(": the application called Disconnect; while Close waited for the server's closing tag the client wrote %d keep-alive bytes BEHIND its own </stream:stream> (one already under way is tolerated): the keep-alive of this session was not stopped", hs.AfterTag), "keepalive-after-own-stream-close"
 		}
-		tolerated := 0
-		if hs.End == "disc" || hs.End == "discslow" {
-			tolerated = 1 // the one that was past its poll of quit when Disconnect was called
-		}
+		tolerated := 1 // the one that was past its poll of quit when the session ended
 		if hs.Late > tolerated {
-			return how(k) + fmt.Sprintf(": its keep-alive loop pinged %d times after the session was over (on whatever connection the client had by then)", hs.Late), "ping-after-session-end"
+			return how(k) + fmt.Sprintf(": its keep-alive loop pinged %d times after the session was over (on whatever connection the client had by then; the application's Disconnected handler: %s)", hs.Late, map[bool]string{true: "still running for part of that time", false: "returned at once"}[in.Hist[k].BlockIv != 0]), "ping-after-session-end"
 		}
 	}
 	for k, hs := range ro.Hist {
